@@ -383,6 +383,8 @@ class ContractInterp(Interp):
             result = VNone
         else:
             result = mk_sym(st, self.tenv, rt, st.fresh_name(f"ret.{sname}"))
+            for fld, fexpr in c.result_fields.items():
+                self.set_field(result, fld, self.eval_spec_expr(fexpr, env, old))
         env["result"] = result
         try:
             for _k, ex in c.ensures.items():
